@@ -27,6 +27,7 @@ EXPLANATION = (
     "for every threshold the validators admit (interval evaluation of the threshold term, then of "
     "get_convergence_format); and the 64-bit switch dominates every array creation in the solver "
     "constructor.  Does not decide that solve() completes for every accepted value."
+    ' Also decides that the 64-bit flag is only ever switched ON by the package (R20.6) and that a NaN gamma is rejected by some guard (R20.15).'
 )
 RULES = {
     "R20.1": "no name is loaded in any function of src/mdpax that is unbound in every enclosing scope, the module and builtins",
